@@ -229,7 +229,7 @@ def run(rep, ctx):
     rep.rule("R06.13", "the reported labels (crystal system, Bravais lattice, point group, chirality) are read from the detected space-group type, not from the operations of the given cell (shared with C14/C15)")
     with rep.guard("R06.13"):
         from . import c14 as _c14
-        _c14.getter_semantics(rep, ctx.model, T, "R06.13")
+        _c14.getter_semantics(rep, ctx.model, T, "R06.13", values=False)
     rep.floor("R06.6", 6000)
     rep.floor("R06.7", 8)
     rep.floor("R06.1", 230)
